@@ -25,3 +25,20 @@ func Texts(u string, n int) []string {
 	o := "{" + strings.Join(members, ",") + "}"
 	return []string{a, o, "[" + a + "," + u + "]", `{"x":` + a + `,"y":` + u + "}", `{"x":` + o + `,"y":` + u + "}", "[ " + strings.Join(items, " ,\n") + " ]"}
 }
+
+// UTF8Chars: one character per combination of UTF-8 byte classes (lead bytes C2..F4, continuation bytes in
+// 80..9F and in A0..BF, the extremes of every length), and DEL - raw bytes a byte-wise scanner may mistake
+// for control characters or for structure.
+var UTF8Chars = []string{
+	"\x7f", "\u0080", "\u009f", " ", "À", "é", "ÿ", "Ā", "ю", "߿",
+	"ࠀ", "€", "日", "퟿", "", "�", "￿", "\U00010000", "\U0001f3c6", "\U0010ffff",
+}
+
+// UTF8Texts returns JSON texts holding the raw character ch in a string value, in a key, in both, twice, and
+// next to escapes and structure.
+func UTF8Texts(ch string) []string {
+	return []string{
+		`"` + ch + `"`, `"x` + ch + `y"`, `["` + ch + `","a"]`, `{"` + ch + `":1}`, `{"k":"` + ch + ` ` + ch + `"}`,
+		`"\n` + ch + `A"`, `{"` + ch + `":"` + ch + `","b":["` + ch + `"]}`, ` "` + ch + `" `, `"` + ch + ch + ch + `"`,
+	}
+}
